@@ -555,7 +555,8 @@ func newSSAStyleFromString(content string, format map[int]string) (s *ssaStyle, 
 		// Bool
 		case ssaStyleFormatNameBold, ssaStyleFormatNameItalic, ssaStyleFormatNameStrikeout,
 			ssaStyleFormatNameUnderline:
-			var b = item == "-1"
+			// -1 is true in the SSA specs, 1 is what this library writes
+			var b = item == "-1" || item == "1"
 			switch attr {
 			case ssaStyleFormatNameBold:
 				s.bold = astikit.BoolPtr(b)
